@@ -103,6 +103,7 @@ def check(run: Run, prog: Program, model: Model, tier: str) -> None:
     run.explanation += ' OPEN-SENTINEL: the comparands of the open-bound test are resolved in re._constants and must all equal MAXREPEAT (an opcode constant is a small int and a legal explicit bound). VALIDATOR-PATTERN: the validator raises the regex error iff re.search(props.pattern, value) is None; a searched pattern obtained by removing characters of the regex source is a violation, one built around the declared pattern is undecided.'
     run.explanation += ' DRAW-NONEMPTY: every random.choice operand reached from visit_str{pattern} and from each _generate_* handler run on a symbolic node is a non-empty constant, a parse-tree component, or established non-empty on the path.'
     run.explanation += " FALLBACK-EXACT: when _generate_not_in takes a candidate from outside the alphabet, (1) a category of the class is tested by a predicate of the candidate itself, not by membership in the category's ASCII alphabet, and (2) for a RANGE member some test relates the candidate to the range's bounds (a set built from range(lo, hi + 1), a comparison with lo / hi, or a loop over that range)."
+    run.explanation += ' ITERATOR-REUSE: a one-shot iterator (generator expression, map / filter / zip object) bound to a local or passed to a method of the class is walked at most once.'
     run.rule_text = ("one obligation per opcode / category of the universe, per handler child flow, per alphabet, per draw; "
                      "non-trivial = needed abstract evaluation of a handler or constant folding")
     run.trusted += ["sre parse-tree node shapes: SUBPATTERN(group, add, del, p), BRANCH(None, [p..]), MAX/MIN_REPEAT(min, max, p), "
@@ -208,6 +209,7 @@ def check(run: Run, prog: Program, model: Model, tier: str) -> None:
     _validator_pattern(run, prog, model)
     _draw_nonempty(run, prog, model)
     _fallback_exact(run, prog, model, cls)
+    _iterator_reuse(run, prog, cls)
 
     # ---------------------------------------------------------------- ALPHABET
     _alphabets(run, prog, model, cls, cat_alpha)
@@ -396,6 +398,100 @@ def _le_on_path(lo: V, hi: V, p: Path) -> bool:
         return lo.key() == hi.key() or le(lo, hi, list(p.facts)) is True
     except Exception:
         return False
+
+
+_ONE_SHOT_CALLS = ("map", "filter", "zip", "iter", "reversed", "enumerate", "filterfalse", "chain", "islice")
+
+
+def _iterator_reuse(run: Run, prog: Program, cls: ClassInfo) -> None:
+    """ITERATOR-REUSE: a generator expression / map / filter object can be walked once.  One that is handed to a helper
+    (or kept in a local) and walked there inside a loop - or at two places - is empty from the second walk on: the test
+    it feeds (is the candidate in one of the class's categories?) silently passes for every later candidate."""
+    def one_shot(e: ast.expr, local_defs: Dict[str, ast.expr]) -> bool:
+        if isinstance(e, ast.GeneratorExp):
+            return True
+        if isinstance(e, ast.Call) and isinstance(e.func, ast.Name) and e.func.id in _ONE_SHOT_CALLS:
+            return True
+        if isinstance(e, ast.Name) and e.id in local_defs:
+            return one_shot(local_defs[e.id], {})
+        return False
+
+    def consumptions(fn: ast.AST, name: str) -> List[Tuple[ast.AST, bool]]:
+        """(site, inside a loop?) for every place that walks `name`"""
+        par = parents(fn)
+        out: List[Tuple[ast.AST, bool]] = []
+        for n in ast.walk(fn):
+            if not (isinstance(n, ast.Name) and n.id == name and isinstance(n.ctx, ast.Load)):
+                continue
+            p = par.get(n)
+            walks = False
+            if isinstance(p, (ast.For, ast.comprehension)) and p.iter is n:
+                walks = True
+            if isinstance(p, ast.Call) and n in p.args and isinstance(p.func, ast.Name) and p.func.id in (
+                    "any", "all", "list", "tuple", "set", "frozenset", "sorted", "sum", "max", "min", "dict", "next", "len"):
+                walks = True
+            if isinstance(p, ast.Call) and n in p.args and isinstance(p.func, ast.Attribute) and p.func.attr == "join":
+                walks = True
+            if isinstance(p, ast.Starred):
+                walks = True
+            if not walks:
+                continue
+            in_loop = False
+            q: Any = p
+            while q is not None and q is not fn:
+                up = par.get(q)
+                if isinstance(up, (ast.For, ast.While)) and q is not getattr(up, "iter", None):
+                    in_loop = True
+                if isinstance(up, (ast.GeneratorExp, ast.ListComp, ast.SetComp, ast.DictComp)) and isinstance(q, ast.comprehension) \
+                        and up.generators.index(q) > 0:
+                    in_loop = True          # walked again for every member of an outer generator
+                if isinstance(up, (ast.GeneratorExp, ast.ListComp, ast.SetComp, ast.DictComp)) and not isinstance(q, ast.comprehension):
+                    in_loop = True          # in the element / condition: evaluated per member
+                q = up
+            out.append((n, in_loop))
+        return out
+    found = 0
+    checked = 0
+    for m in cls.methods.values():
+        local_defs: Dict[str, ast.expr] = {}
+        for n in ast.walk(m.node):
+            if isinstance(n, ast.Assign) and len(n.targets) == 1 and isinstance(n.targets[0], ast.Name):
+                local_defs[n.targets[0].id] = n.value
+        # (1) a one-shot local walked in a loop / twice in this very function
+        for name, val in local_defs.items():
+            if one_shot(val, {}):
+                cons = consumptions(m.node, name)
+                checked += 1
+                if any(il for _, il in cons) or len(cons) > 1:
+                    found += 1
+                    site = cons[0][0]
+                    run.violated("ITERATOR-REUSE", f"{cls.name}.{m.name}: `{name}`", f"{m.module.path}:{getattr(site, 'lineno', 0)}",
+                                 f"`{name}` is a one-shot iterator ({ast.unparse(val)[:50]}) and is walked "
+                                 f"{'inside a loop' if any(il for _, il in cons) else 'at ' + str(len(cons)) + ' places'}: empty from the second walk on",
+                                 witness="RegexGenerator(Random()).generate(r'[^\\w\\x00-\\xbf]') returns 'Á', which \\w matches")
+        # (2) a one-shot argument of a call to a method of the class
+        for n in ast.walk(m.node):
+            if isinstance(n, ast.Call) and isinstance(n.func, ast.Attribute) and isinstance(n.func.value, ast.Name) and n.func.value.id == "self":
+                callee = cls.lookup(n.func.attr)
+                if callee is None:
+                    continue
+                params = [a.arg for a in callee.node.args.posonlyargs + callee.node.args.args if a.arg != "self"]
+                bound = list(zip(params, n.args)) + [(k.arg, k.value) for k in n.keywords if k.arg]
+                for pname, arg in bound:
+                    if not one_shot(arg, local_defs):
+                        continue
+                    checked += 1
+                    cons = consumptions(callee.node, pname)
+                    if any(il for _, il in cons) or len(cons) > 1:
+                        found += 1
+                        site = cons[0][0]
+                        run.violated("ITERATOR-REUSE", f"{cls.name}.{callee.name}: parameter `{pname}`", f"{callee.module.path}:{getattr(site, 'lineno', 0)}",
+                                     f"{m.name} passes a one-shot iterator ({ast.unparse(arg)[:50]}) and {callee.name} walks it "
+                                     f"{'inside a loop' if any(il for _, il in cons) else 'at ' + str(len(cons)) + ' places'}: empty from the second walk on",
+                                     witness="RegexGenerator(Random()).generate(r'[^\\w\\x00-\\xbf]') returns 'Á', which \\w matches")
+    if not found:
+        run.holds("ITERATOR-REUSE", f"{cls.name}: one-shot iterators", cls.loc,
+                  f"{checked} one-shot iterator(s) bound to a name / parameter, none walked more than once", nontrivial=bool(checked))
 
 
 def _loop_syms(k: str) -> Set[str]:
@@ -935,4 +1031,11 @@ MUTANTS += [
      "edits": [(X, "            if letter in excluded:\n                continue\n", "            if letter in excluded or any(lo <= ord(letter) <= hi for lo, hi in ranges):\n                continue\n"),
                (X, "    def _first_letter_not_in(self, exclude_letters: str, categories: List[Any]) -> str:\n", "    def _first_letter_not_in(self, exclude_letters: str, categories: List[Any],\n                             ranges: Any = ()) -> str:\n"),
                (X, "            letters = self._first_letter_not_in(exclude_letters, categories)\n", "            ranges = [val for opcode, val in value if opcode == RANGE]\n            letters = self._first_letter_not_in(exclude_letters, categories, ranges)\n")]},
+]
+
+MUTANTS += [
+    {"name": 'seeded C09-O', "rule": 'ITERATOR-REUSE',
+     "edits": [('d42/generation/_regex_generator.py', '        SUBPATTERN,\n    )\n\nfrom typing import Any, Dict, List, Optional, Tuple\n\nfrom ._random import Random\n\n', '        SUBPATTERN,\n    )\n\nfrom typing import Any, Dict, Iterable, List, Optional, Tuple\n\nfrom ._random import Random\n\n'),
+               ('d42/generation/_regex_generator.py', '        letters = "".join(set(self._alphabet["letters"]) - set(exclude_letters))\n        if len(letters) == 0:\n            # the class excludes the whole alphabet: fall back to the first character it admits\n            categories = [val for opcode, val in value if opcode == CATEGORY]\n            letters = self._first_letter_not_in(exclude_letters, categories)\n        return self._random.random_choice(letters)\n\n', '        letters = "".join(set(self._alphabet["letters"]) - set(exclude_letters))\n        if len(letters) == 0:\n            # the class excludes the whole alphabet: fall back to the first character it admits\n            categories = (val for opcode, val in value if opcode == CATEGORY)\n            letters = self._first_letter_not_in(exclude_letters, categories)\n        return self._random.random_choice(letters)\n\n'),
+               ('d42/generation/_regex_generator.py', '        else:\n            raise ValueError(f"Unknown category {category}")\n\n    def _first_letter_not_in(self, exclude_letters: str, categories: List[Any]) -> str:\n        excluded = set(exclude_letters)\n        for code in range(sys.maxunicode + 1):\n            letter = chr(code)\n            if letter in excluded:\n                continue\n            if any(self._is_in_category(category, letter) for category in categories):\n', '        else:\n            raise ValueError(f"Unknown category {category}")\n\n    def _first_letter_not_in(self, exclude_letters: str, categories: Iterable[Any]) -> str:\n        excluded = frozenset(exclude_letters)\n        for letter in map(chr, range(sys.maxunicode + 1)):\n            if letter in excluded:\n                continue\n            if any(self._is_in_category(category, letter) for category in categories):\n')]},
 ]
